@@ -81,59 +81,71 @@ def html_to_nodes(
     ):
         return default_html(text, renderer.document["source"], line_number)
 
-    nodes_list = []
-    for child in root:
-        if child.name == "img":
-            if "src" not in child.attrs:
-                return [
-                    renderer.reporter.error(
-                        "<img> missing 'src' attribute", line=line_number
+    # (the conversion copies and re-renders the elements recursively)
+    try:
+        nodes_list = []
+        for child in root:
+            if child.name == "img":
+                if "src" not in child.attrs:
+                    return [
+                        renderer.reporter.error(
+                            "<img> missing 'src' attribute", line=line_number
+                        )
+                    ]
+                content = "\n".join(
+                    f":{k}: {v}"
+                    for k, v in sorted(child.attrs.items())
+                    if k in OPTION_KEYS_IMAGE
+                )
+                nodes_list.extend(
+                    renderer.run_directive(
+                        "image", child.attrs["src"], content, line_number
                     )
-                ]
-            content = "\n".join(
-                f":{k}: {v}"
-                for k, v in sorted(child.attrs.items())
-                if k in OPTION_KEYS_IMAGE
-            )
-            nodes_list.extend(
-                renderer.run_directive(
-                    "image", child.attrs["src"], content, line_number
                 )
-            )
 
-        else:
-            children = child.strip().children
-            title = (
-                "".join(child.render() for child in children.pop(0))
-                if children
-                and children[0].name in ("div", "p")
-                and (
-                    "title" in children[0].attrs.classes
-                    or "admonition-title" in children[0].attrs.classes
+            else:
+                children = child.strip().children
+                title = (
+                    "".join(child.render() for child in children.pop(0))
+                    if children
+                    and children[0].name in ("div", "p")
+                    and (
+                        "title" in children[0].attrs.classes
+                        or "admonition-title" in children[0].attrs.classes
+                    )
+                    else "Note"
                 )
-                else "Note"
-            )
 
-            options = "\n".join(
-                f":{k}: {v}"
-                for k, v in sorted(child.attrs.items())
-                if k in OPTION_KEYS_ADMONITION
-            ).rstrip()
-            new_children = []
-            for child in children:
-                if child.name == "p":
-                    new_children.extend(child.children)
-                    new_children.append(Data("\n\n"))
-                else:
-                    new_children.append(child)
-            content = (
-                options
-                + ("\n\n" if options else "")
-                + "".join(child.render() for child in new_children).lstrip()
-            )
+                options = "\n".join(
+                    f":{k}: {v}"
+                    for k, v in sorted(child.attrs.items())
+                    if k in OPTION_KEYS_ADMONITION
+                ).rstrip()
+                new_children = []
+                for child in children:
+                    if child.name == "p":
+                        new_children.extend(child.children)
+                        new_children.append(Data("\n\n"))
+                    else:
+                        new_children.append(child)
+                content = (
+                    options
+                    + ("\n\n" if options else "")
+                    + "".join(child.render() for child in new_children).lstrip()
+                )
 
-            nodes_list.extend(
-                renderer.run_directive("admonition", title, content, line_number)
-            )
+                nodes_list.extend(
+                    renderer.run_directive("admonition", title, content, line_number)
+                )
+
+    except RecursionError:
+        msg_node = renderer.create_warning(
+            "HTML is nested too deeply to be converted",
+            MystWarnings.HTML_PARSE,
+            line=line_number,
+        )
+        return ([msg_node] if msg_node else []) + default_html(
+            text, renderer.document["source"], line_number
+        )
 
     return nodes_list
